@@ -1753,6 +1753,8 @@ def run(chk):
     # (the rerun stream comes last so that the random streams of the older ones are what they were)
     for name, fn in (("reject", run_reject), ("chunks", run_chunks), ("flow", run_flow), ("grid", run_grid), ("brace", run_brace),
                      ("rerun", run_rerun), ("join", run_join)):
+        if os.environ.get("VERIF_C20_ONLY") not in (None, "", name):      # development aid: one stream only
+            continue
         t0 = time.time()
         fn(chk, quick)
         timing[name] = round(time.time() - t0, 1)
